@@ -1783,6 +1783,8 @@ package otto
 //@   ensures is(value, float32) ==> result.kind == valueNumber && is(result.value, float64) && sameFloat(result.value.(float64), float64(value.(float32)))
 //@   ensures is(value, *object) ==> result.kind == valueObject && result.value == value
 //@   ensures result.kind == valueNumber ==> isGoNumber(result)
+//@   calls reflect.(reflect.Value).Kind(_) as k whenret false
+//@   ensures called(k) && result.kind == valueNumber && is(value, reflect.Value) ==> (k == 7 ==> is(result.value, uint)) && (k == 8 ==> is(result.value, uint8)) && (k == 9 ==> is(result.value, uint16)) && (k == 10 ==> is(result.value, uint32)) && (k == 11 ==> is(result.value, uint64)) && (k == 2 ==> is(result.value, int)) && (k == 3 ==> is(result.value, int8)) && (k == 4 ==> is(result.value, int16)) && (k == 5 ==> is(result.value, int32)) && (k == 6 ==> is(result.value, int64))
 //@   ensures result.kind == valueBoolean ==> is(result.value, bool)
 //@   ensures is(value, int) ==> result.kind == valueNumber && result.value == value
 //@   ensures is(value, int8) ==> result.kind == valueNumber && result.value == value
